@@ -20,15 +20,15 @@ Ref == INSTANCE WilkinsonRef
 A(tok, text) == [tok |-> tok, text |-> text]
 OpC(c) == A(W!OpTok(<<c>>), c)
 Names == << A(W!Tok("name", "a"), "a"), A(W!Tok("name", "b"), "b") >>
-Lits == << A(W!Tok("value", "0"), "0"), A(W!Tok("value", "1"), "1"), A(W!Tok("value", "2"), "2") >>
+Lits == << A(W!ValTok("0", TRUE, 0), "0"), A(W!ValTok("1", TRUE, 1), "1"), A(W!ValTok("2", TRUE, 2), "2") >>
 OpChars == << OpC("+"), OpC("-"), OpC("*"), OpC("/"), OpC(":"), OpC("^"), OpC("~"), OpC("|") >>
-Parens == << A([k |-> "open", s |-> "(", cs |-> <<>>, vars |-> <<>>], "("), A([k |-> "close", s |-> ")", cs |-> <<>>, vars |-> <<>>], ")") >>
-Brackets == << A([k |-> "open", s |-> "[", cs |-> <<>>, vars |-> <<>>], "["), A([k |-> "close", s |-> "]", cs |-> <<>>, vars |-> <<>>], "]") >>
+Parens == << A(W!CtxTok("open", "("), "("), A(W!CtxTok("close", ")"), ")") >>
+Brackets == << A(W!CtxTok("open", "["), "["), A(W!CtxTok("close", "]"), "]") >>
 InOp == << A(W!OpTok(<<"in">>), "%in%") >>
 Extra == << A(W!Tok("name", "c"), "c"),
             A(W!Tok("name", "x y"), "`x y`"),
             A(W!PyTok("f(a)", <<"f", "a">>), "f(a)"),
-            A(W!Tok("value", "\"s\""), "\"s\""),
+            A(W!ValTok("\"s\"", FALSE, -1), "\"s\""),
             A(W!OpTok(<<".">>), "."),
             OpC("@") >>
 
